@@ -980,10 +980,15 @@ impl JpegSpec {
         let zz = zigzag();
         let (bw, bh) = (self.blocks_w(), self.blocks_h());
         let nb = bw * bh;
-        assert!(self.w <= 2048 && self.h <= 2048, "single LF group only");
-        // groups of 256x256 samples = 32x32 blocks
-        let (gcols, grows) = ((bw + 31) / 32, (bh + 31) / 32);
+        // groups of 256x256 samples = 32x32 blocks (VarDCT frames have no other group size); an LF group is 8x8 groups, so
+        // an image wider or taller than 2048 has several LF groups
+        let gb = 32usize;
+        let lfb = gb * 8;
+        let (gcols, grows) = ((bw + gb - 1) / gb, (bh + gb - 1) / gb);
         let num_groups = gcols * grows;
+        let (lfcols, lfrows) = ((bw + lfb - 1) / lfb, (bh + lfb - 1) / lfb);
+        let nlf = lfcols * lfrows;
+        assert!(nlf == 1 || (self.samp.is_empty() && o.big_blocks.is_none() && o.block_cycle.is_empty() && !o.lf_frame && o.hostile_dct_select.is_none()), "several LF groups: plain DCT8 frames only");
         let up = o.upsampling.max(1);
         assert!(up == 1 || canvas.is_none(), "upsampling is only written for uncropped frames");
         let (cw, ch) = canvas.map(|c| (c.0, c.1)).unwrap_or((self.w as u32 * up, self.h as u32 * up));
@@ -1071,8 +1076,21 @@ impl JpegSpec {
                 None => Channel::new(bw, bh),
             })
             .collect();
-        let mut lf_syms = vec![];
-        tokenize_channels(&mut lf, 0..3, 1, &tree, &wp, &mut lf_syms);
+        // block regions (x0, y0, w, h) of the LF groups
+        let lf_regions: Vec<(usize, usize, usize, usize)> = (0..nlf).map(|g| ((g % lfcols) * lfb, (g / lfcols) * lfb)).map(|(x0, y0)| (x0, y0, (bw - x0).min(lfb), (bh - y0).min(lfb))).collect();
+        let mut lf_syms_g: Vec<Vec<Sym>> = vec![];
+        if nlf == 1 {
+            let mut v = vec![];
+            tokenize_channels(&mut lf, 0..3, 1, &tree, &wp, &mut v);
+            lf_syms_g.push(v);
+        } else {
+            for (g, &(x0, y0, w, h)) in lf_regions.iter().enumerate() {
+                let mut part: Vec<Channel> = lf.iter().map(|c| c.crop(x0, y0, w, h)).collect();
+                let mut v = vec![];
+                tokenize_channels(&mut part, 0..3, 1 + g as u32, &tree, &wp, &mut v);
+                lf_syms_g.push(v);
+            }
+        }
         let (cw, chh) = ((self.w + 63) / 64, (self.h + 63) / 64);
         // varblock layout: `vb_of[block]` = transform type at the top-left block of a varblock, None where covered
         let mut vb_of: Vec<Option<u8>> = vec![Some(0); nb];
@@ -1131,8 +1149,29 @@ impl JpegSpec {
                 }
             }
         }
-        let mut meta_syms = vec![];
-        tokenize_channels(&mut meta, 0..4, 1 + 2, &tree, &wp, &mut meta_syms);
+        let mut meta_syms_g: Vec<Vec<Sym>> = vec![];
+        let mut nb_g: Vec<usize> = vec![];
+        if nlf == 1 {
+            let mut v = vec![];
+            tokenize_channels(&mut meta, 0..4, 1 + 2, &tree, &wp, &mut v);
+            meta_syms_g.push(v);
+            nb_g.push(nb);
+        } else {
+            // DCT8 only: the varblock index of a block is its raster index
+            for (g, &(x0, y0, w, h)) in lf_regions.iter().enumerate() {
+                let mut info = Channel::new(w * h, 2);
+                for y in 0..h {
+                    for x in 0..w {
+                        info.data[w * h + y * w + x] = meta[2].data[nb + (y0 + y) * bw + x0 + x];
+                    }
+                }
+                let mut part = vec![meta[0].crop(x0 / 8, y0 / 8, (w + 7) / 8, (h + 7) / 8), meta[1].crop(x0 / 8, y0 / 8, (w + 7) / 8, (h + 7) / 8), info, meta[3].crop(x0, y0, w, h)];
+                let mut v = vec![];
+                tokenize_channels(&mut part, 0..4, 1 + 2 * nlf as u32 + g as u32, &tree, &wp, &mut v);
+                meta_syms_g.push(v);
+                nb_g.push(w * h);
+            }
+        }
         // raw quantisation matrices for DCT8: channels X (Cb table), Y (luma table), B (Cr table)
         let table_of = |c: usize| -> &[u16; 64] {
             let comp = if self.ncomp == 1 { 0 } else { c };
@@ -1151,7 +1190,7 @@ impl JpegSpec {
             })
             .collect();
         let mut qm_syms = vec![];
-        tokenize_channels(&mut qm, 0..3, 1 + 3, &tree, &wp, &mut qm_syms);
+        tokenize_channels(&mut qm, 0..3, 1 + 3 * nlf as u32, &tree, &wp, &mut qm_syms);
         // the alpha channel lives in GlobalModular (stream index 0)
         let mut alpha_syms = vec![];
         if o.alpha_bits > 0 {
@@ -1159,9 +1198,9 @@ impl JpegSpec {
             let mut a = vec![Channel::from_fn(self.w, self.h, |x, y| (((x * 29 + y * 53 + x * y * 7) % 97) as i64 * maxv / 96) as i32)];
             tokenize_channels(&mut a, 0..1, 0, &tree, &wp, &mut alpha_syms);
         }
-        let mut all = lf_syms.clone();
+        let mut all: Vec<Sym> = lf_syms_g.iter().flatten().copied().collect();
         all.extend_from_slice(&alpha_syms);
-        all.extend_from_slice(&meta_syms);
+        all.extend(meta_syms_g.iter().flatten().copied());
         all.extend_from_slice(&qm_syms);
         let opts = CodeOpts { use_prefix: !ans, cfg: Some(HybridCfg::new(4, 2, 0)), ..Default::default() };
         let mcode = CodeSpec::build(1, &all, &opts);
@@ -1205,19 +1244,22 @@ impl JpegSpec {
         if num_groups > 1 {
             sections.push(std::mem::replace(&mut s, BitWriter::new()));
         }
-        // LfGroup: LfCoeff (absent when the LF comes from an LF frame)
-        if !o.lf_frame {
-            s.write(2, 0);
+        for g in 0..nlf {
+            // LfGroup: LfCoeff (absent when the LF comes from an LF frame)
+            if !o.lf_frame {
+                s.write(2, 0);
+                mhdr.write(&mut s);
+                mcode.write_symbols(&mut s, &lf_syms_g[g]);
+            }
+            // HfMetadata
+            let blocks = lf_regions[g].2 * lf_regions[g].3;
+            let nbits = if blocks <= 1 { 0 } else { 32 - ((blocks - 1) as u32).leading_zeros() };
+            s.write(nbits, (nb_g[g] - 1) as u64);
             mhdr.write(&mut s);
-            mcode.write_symbols(&mut s, &lf_syms);
-        }
-        // HfMetadata
-        let nbits = if bw * bh <= 1 { 0 } else { 32 - ((bw * bh - 1) as u32).leading_zeros() };
-        s.write(nbits, (nb - 1) as u64);
-        mhdr.write(&mut s);
-        mcode.write_symbols(&mut s, &meta_syms);
-        if num_groups > 1 {
-            sections.push(std::mem::replace(&mut s, BitWriter::new()));
+            mcode.write_symbols(&mut s, &meta_syms_g[g]);
+            if num_groups > 1 {
+                sections.push(std::mem::replace(&mut s, BitWriter::new()));
+            }
         }
         // HfGlobal: dequant matrices
         s.bool(false);
@@ -1241,14 +1283,14 @@ impl JpegSpec {
         let block_order: Vec<usize> = (0..num_groups)
             .flat_map(|g| {
                 let (gx, gy) = (g % gcols, g / gcols);
-                let (x1, y1) = (((gx + 1) * 32).min(bw), ((gy + 1) * 32).min(bh));
-                (gy * 32..y1).flat_map(move |y| (gx * 32..x1).map(move |x| y * bw + x)).collect::<Vec<_>>()
+                let (x1, y1) = (((gx + 1) * gb).min(bw), ((gy + 1) * gb).min(bh));
+                (gy * gb..y1).flat_map(move |y| (gx * gb..x1).map(move |x| y * bw + x)).collect::<Vec<_>>()
             })
             .collect();
         let mut cur_group = usize::MAX;
         for blk in block_order {
             let (bx, by) = (blk % bw, blk / bw);
-            let g = (by / 32) * gcols + bx / 32;
+            let g = (by / gb) * gcols + bx / gb;
             if g != cur_group {
                 if let Some(last) = group_sym_ranges.last_mut() {
                     last.1 = hf_syms.len();
